@@ -246,7 +246,7 @@ def run(tier, seed):
     chk = core.Check("C18", "exploration", tier, seed)
     bin_ = core.build_lalrpop()
     base = core.seed_for("C18", seed) % (2 ** 31)
-    n = {"quick": 10000, "thorough": 300000}[tier]
+    n = {"quick": 10000, "thorough": 80000}[tier]
     global MAX_CORPUS_LEN
     if tier == "thorough":
         MAX_CORPUS_LEN = 40000
